@@ -121,7 +121,7 @@ theorem ctxSection_of_diff (ho : PlainOpts o name) (hs0 : CleanStart s0) (hname 
       splitLines (ctxPatchText filler old new oldt newt hs) = ctxLines filler old new oldt newt tss ∧
       PlainSection o (forcedC o) (loopStart s0 (ctxLines filler old new oldt newt tss)) name bytes m patch0 patch2 info
         par1 par2 r ∧
-      render o.newlineOutput r.out = renderLines o.newlineOutput (splice (splitLines bytes) 0 hs) ∧
+      render o.newlineOutput r.out = Render.renderText o.newlineOutput (splice (splitLines bytes) 0 hs) ∧
       par2.s.eof = true := by
   have hfl : ∀ l ∈ filler, l.newline ≠ .none := by
     intro l hl
@@ -177,7 +177,7 @@ theorem C01_run_context_filler (ho : CtxRunOpts o name pname) (hreal : o.dryRun 
     (hpatch : s0.fs.lookup pname = some (.file (ctxPatchText filler old new oldt newt hs) pm))
     (hd : ContextDiff filler old new oldt newt hs) (hvalid : Valid (splitLines bytes) 0 0 hs) :
     (runPatch o s0).1 = 0 ∧
-    (runPatch o s0).2.fs.lookup name = some (.file (renderLines o.newlineOutput (splice (splitLines bytes) 0 hs)) m) ∧
+    (runPatch o s0).2.fs.lookup name = some (.file (Render.renderText o.newlineOutput (splice (splitLines bytes) 0 hs)) m) ∧
     ∀ q, q ≠ name → (runPatch o s0).2.fs.lookup q = s0.fs.lookup q := by
   obtain ⟨tss, patch0, patch2, info, par1, par2, r, hlines, H, hrender, heof⟩ :=
     ctxSection_of_diff ho.plain hs0 hname htarget hw hd hvalid
@@ -223,7 +223,7 @@ theorem C01_run_context (o : Options) (s0 : DState) (name pname bytes oldt newt 
     (hpatch : s0.fs.lookup pname = some (.file (ctxDiffText name name oldt newt hs) pm))
     (hh : DiffHunks hs) (hvalid : Valid (splitLines bytes) 0 0 hs) :
     (runPatch o s0).1 = 0 ∧
-    (runPatch o s0).2.fs.lookup name = some (.file (renderLines o.newlineOutput (splice (splitLines bytes) 0 hs)) m) ∧
+    (runPatch o s0).2.fs.lookup name = some (.file (Render.renderText o.newlineOutput (splice (splitLines bytes) 0 hs)) m) ∧
     ∀ q, q ≠ name → (runPatch o s0).2.fs.lookup q = s0.fs.lookup q :=
   C01_run_context_filler (filler := []) (ctxRunOpts_of_runOpts ho hu) hreal hs0 hn.1
     (dirExists_parent_of_noSlash s0.fs hn.2.1) hpn hpd htarget hw hpatch (contextDiff_of_flat hn hot hnt hh) hvalid
@@ -249,7 +249,7 @@ theorem C01_run_context_c (o : Options) (s0 : DState) (name pname bytes oldt new
     (hpatch : s0.fs.lookup pname = some (.file (ctxDiffText name name oldt newt hs) pm))
     (hh : DiffHunks hs) (hvalid : Valid (splitLines bytes) 0 0 hs) :
     (runPatch o s0).1 = 0 ∧
-    (runPatch o s0).2.fs.lookup name = some (.file (renderLines o.newlineOutput (splice (splitLines bytes) 0 hs)) m) ∧
+    (runPatch o s0).2.fs.lookup name = some (.file (Render.renderText o.newlineOutput (splice (splitLines bytes) 0 hs)) m) ∧
     ∀ q, q ≠ name → (runPatch o s0).2.fs.lookup q = s0.fs.lookup q :=
   C01_run_context_filler (filler := []) ho hreal hs0 hn.1
     (dirExists_parent_of_noSlash s0.fs hn.2.1) hpn hpd htarget hw hpatch (contextDiff_of_flat hn hot hnt hh) hvalid
@@ -279,7 +279,7 @@ theorem ctxGuessSection_of_diff (ho : CtxGuessOpts o pname) (hs0 : CleanStart s0
       splitLines (ctxPatchText filler old new oldt newt hs) = ctxLines filler old new oldt newt tss ∧
       GuessSection o (forcedC o) (loopStart s0 (ctxLines filler old new oldt newt tss)) name bytes m patch0 patch2 info
         par1 par2 r ∧
-      render o.newlineOutput r.out = renderLines o.newlineOutput (splice (splitLines bytes) 0 hs) ∧
+      render o.newlineOutput r.out = Render.renderText o.newlineOutput (splice (splitLines bytes) 0 hs) ∧
       par2.s.eof = true := by
   have hfl : ∀ l ∈ filler, l.newline ≠ .none := by
     intro l hl
@@ -309,7 +309,7 @@ theorem ctxGuessSection_of_diff (ho : CtxGuessOpts o pname) (hs0 : CleanStart s0
       applyPatch_valid (splitLines bytes) hsp { patch0 with hunks := hsp } (applyOptsOf o)
         (Option.map (fun l => List.map (fun a => !List.isEmpty a && List.head? a != some 110) l) s0.tty)
         hv' (by rw [hrev]; rfl) ho.noDefine ho.fuzz
-    refine ⟨_, patch0, { patch0 with hunks := hsp }, info, par1, par2, r, hlines, ?_, by rw [render, hrout, hsplice], heof⟩
+    refine ⟨_, patch0, { patch0 with hunks := hsp }, info, par1, par2, r, hlines, ?_, C01.render_of_lines _ ho.noDefine hap (hrout.trans hsplice), heof⟩
     exact {
       noOperand := ho.noOperand,
       oldPath := by rw [hop0, Header.stripped, if_neg hold, hstrip],
@@ -329,7 +329,7 @@ theorem C01_run_context_guess_filler (ho : CtxGuessOpts o pname) (hreal : o.dryR
     (hd : ContextDiff filler old new oldt newt hs) (hold : old ≠ devNull) (hstrip : stripPath old o.strip = name)
     (hvalid : Valid (splitLines bytes) 0 0 hs) :
     (runPatch o s0).1 = 0 ∧
-    (runPatch o s0).2.fs.lookup name = some (.file (renderLines o.newlineOutput (splice (splitLines bytes) 0 hs)) m) ∧
+    (runPatch o s0).2.fs.lookup name = some (.file (Render.renderText o.newlineOutput (splice (splitLines bytes) 0 hs)) m) ∧
     ∀ q, q ≠ name → (runPatch o s0).2.fs.lookup q = s0.fs.lookup q := by
   obtain ⟨tss, patch0, patch2, info, par1, par2, r, hlines, H, hrender, heof⟩ :=
     ctxGuessSection_of_diff ho hs0 hname hnn htarget hw hd hold hstrip hvalid
@@ -367,7 +367,7 @@ theorem C01_run_context_guess (o : Options) (s0 : DState) (name pname bytes oldt
     (hpatch : s0.fs.lookup pname = some (.file (ctxDiffText name name oldt newt hs) pm))
     (hh : DiffHunks hs) (hvalid : Valid (splitLines bytes) 0 0 hs) :
     (runPatch o s0).1 = 0 ∧
-    (runPatch o s0).2.fs.lookup name = some (.file (renderLines o.newlineOutput (splice (splitLines bytes) 0 hs)) m) ∧
+    (runPatch o s0).2.fs.lookup name = some (.file (Render.renderText o.newlineOutput (splice (splitLines bytes) 0 hs)) m) ∧
     ∀ q, q ≠ name → (runPatch o s0).2.fs.lookup q = s0.fs.lookup q :=
   C01_run_context_guess_filler (filler := []) ho hreal hs0 hn.1 (flat_ne_devNull hn.2.1)
     (dirExists_parent_of_noSlash s0.fs hn.2.1) hpn hpd htarget hw hpatch (contextDiff_of_flat hn hot hnt hh)
@@ -410,7 +410,7 @@ theorem applies :
   have h := C01_run_context o (mk bytes [hk]) name pname bytes oldt newt 0o644 0o644 [hk] runOpts rfl rfl
     ⟨rfl, rfl, rfl, rfl, rfl, rfl⟩ (by decide) (by decide) (by decide) rfl (by decide) (by decide) (by decide) rfl
     { nonEmpty := by decide, writable := by decide, change := by decide } (validB_sound _ _ _ _ (by decide))
-  have hm : renderLines o.newlineOutput (splice (splitLines bytes) 0 [hk]) = [97, 10, 66, 10, 99, 10] := by decide
+  have hm : Render.renderText o.newlineOutput (splice (splitLines bytes) 0 [hk]) = [97, 10, 66, 10, 99, 10] := by decide
   rw [hm] at h
   exact h
 
@@ -422,7 +422,7 @@ theorem applies_del :
   have h := C01_run_context o (mk bytes [hdel]) name pname bytes oldt newt 0o644 0o644 [hdel] runOpts rfl rfl
     ⟨rfl, rfl, rfl, rfl, rfl, rfl⟩ (by decide) (by decide) (by decide) rfl (by decide) (by decide) (by decide) rfl
     { nonEmpty := by decide, writable := by decide, change := by decide } (validB_sound _ _ _ _ (by decide))
-  have hm : renderLines o.newlineOutput (splice (splitLines bytes) 0 [hdel]) = [97, 10, 99, 10] := by decide
+  have hm : Render.renderText o.newlineOutput (splice (splitLines bytes) 0 [hdel]) = [97, 10, 99, 10] := by decide
   rw [hm] at h
   exact h
 
@@ -434,7 +434,7 @@ theorem applies_ins :
   have h := C01_run_context o (mk bytes2 [hins]) name pname bytes2 oldt newt 0o644 0o644 [hins] runOpts rfl rfl
     ⟨rfl, rfl, rfl, rfl, rfl, rfl⟩ (by decide) (by decide) (by decide) rfl (by decide) (by decide) (by decide) rfl
     { nonEmpty := by decide, writable := by decide, change := by decide } (validB_sound _ _ _ _ (by decide))
-  have hm : renderLines o.newlineOutput (splice (splitLines bytes2) 0 [hins]) = [97, 10, 98, 10, 99, 10] := by decide
+  have hm : Render.renderText o.newlineOutput (splice (splitLines bytes2) 0 [hins]) = [97, 10, 98, 10, 99, 10] := by decide
   rw [hm] at h
   exact h
 
@@ -459,7 +459,7 @@ theorem applies_c :
       file := { patchFile := rfl, noDir := rfl, noHelp := rfl, noVersion := rfl, noNormal := rfl, noEd := rfl, fmt := Or.inl rfl } }
     rfl ⟨rfl, rfl, rfl, rfl, rfl, rfl⟩ (by decide) (by decide) (by decide) rfl (by decide) (by decide) (by decide) rfl
     { nonEmpty := by decide, writable := by decide, change := by decide } (validB_sound _ _ _ _ (by decide))
-  have hm : renderLines o.newlineOutput (splice (splitLines bytes) 0 [hk]) = [97, 10, 66, 10, 99, 10] := by decide
+  have hm : Render.renderText o.newlineOutput (splice (splitLines bytes) 0 [hk]) = [97, 10, 66, 10, 99, 10] := by decide
   rw [hm] at h
   exact ⟨h.1, h.2.1⟩
 
@@ -472,7 +472,7 @@ theorem applies_guess :
       file := { patchFile := rfl, noDir := rfl, noHelp := rfl, noVersion := rfl, noNormal := rfl, noEd := rfl, fmt := Or.inr rfl } }
     (by decide) rfl ⟨rfl, rfl, rfl, rfl, rfl, rfl⟩ (by decide) (by decide) (by decide) rfl (by decide) (by decide)
     (by decide) rfl { nonEmpty := by decide, writable := by decide, change := by decide } (validB_sound _ _ _ _ (by decide))
-  have hm : renderLines o.newlineOutput (splice (splitLines bytes) 0 [hk]) = [97, 10, 66, 10, 99, 10] := by decide
+  have hm : Render.renderText o.newlineOutput (splice (splitLines bytes) 0 [hk]) = [97, 10, 66, 10, 99, 10] := by decide
   rw [hm] at h
   exact ⟨h.1, h.2.1⟩
 
@@ -514,7 +514,7 @@ theorem applies_mix :
   have h := C01_run_context o (mk bytes3 [hmix]) name pname bytes3 oldt newt 0o644 0o644 [hmix] runOpts rfl rfl
     ⟨rfl, rfl, rfl, rfl, rfl, rfl⟩ (by decide) (by decide) (by decide) rfl (by decide) (by decide) (by decide) rfl
     { nonEmpty := by decide, writable := by decide, change := by decide } (validB_sound _ _ _ _ (by decide))
-  have hm : renderLines o.newlineOutput (splice (splitLines bytes3) 0 [hmix]) = [65, 10, 66, 10] := by decide
+  have hm : Render.renderText o.newlineOutput (splice (splitLines bytes3) 0 [hmix]) = [65, 10, 66, 10] := by decide
   rw [hm] at h
   exact ⟨h.1, h.2.1⟩
 #guard (runPatch o (mk bytes3 [hmix])).1 == 0 &&
@@ -537,7 +537,7 @@ theorem applies_two :
   have h := C01_run_context o (mk bytes4 [h1, h2]) name pname bytes4 oldt newt 0o644 0o644 [h1, h2] runOpts rfl rfl
     ⟨rfl, rfl, rfl, rfl, rfl, rfl⟩ (by decide) (by decide) (by decide) rfl (by decide) (by decide) (by decide) rfl
     { nonEmpty := by decide, writable := by decide, change := by decide } (validB_sound _ _ _ _ (by decide))
-  have hm : renderLines o.newlineOutput (splice (splitLines bytes4) 0 [h1, h2]) =
+  have hm : Render.renderText o.newlineOutput (splice (splitLines bytes4) 0 [h1, h2]) =
       [50, 10, 51, 10, 52, 10, 53, 10, 54, 10, 55, 10, 56, 10, 110] := by decide
   rw [hm] at h
   exact ⟨h.1, h.2.1⟩
